@@ -29,6 +29,7 @@ type FaultStore struct {
 	mu         sync.Mutex
 	failCommit int
 	failPut    int
+	failGet    int
 	Commits    int
 	Failed     int
 	park       chan struct{} // non-nil: Puts block until it is closed
@@ -79,6 +80,22 @@ func (f *FaultStore) FailCommits(n int) { f.mu.Lock(); f.failCommit = n; f.mu.Un
 
 // FailPuts arms n failures of direct Puts.
 func (f *FaultStore) FailPuts(n int) { f.mu.Lock(); f.failPut = n; f.mu.Unlock() }
+
+// FailGets arms n failures of Get (an error that is not "not found").
+func (f *FaultStore) FailGets(n int) { f.mu.Lock(); f.failGet = n; f.mu.Unlock() }
+
+// Get implements ds.Datastore.
+func (f *FaultStore) Get(k ds.Key) ([]byte, error) {
+	f.mu.Lock()
+	if f.failGet > 0 {
+		f.failGet--
+		f.Failed++
+		f.mu.Unlock()
+		return nil, ErrStore
+	}
+	f.mu.Unlock()
+	return f.Datastore.Get(k)
+}
 
 // Put implements ds.Datastore.
 func (f *FaultStore) Put(k ds.Key, v []byte) error {
